@@ -179,3 +179,10 @@ func ShowBool(name string, v bool) { Infos = append(Infos, fmt.Sprintf("%s = %v"
 func PubKeyBytes(i int) []byte {
 	return ed25519.GenPrivKeyFromSecret([]byte{byte(i)}).PubKey().Bytes()
 }
+
+// Guard / EndGuard bracket store writes that exist only if c holds:
+//   if vh.Guard(c) { k.SetX(...) }; vh.EndGuard()
+// natively this is an ordinary conditional; the engine executes the body once
+// and records c as the presence condition of every cell written inside.
+func Guard(c bool) bool { return c }
+func EndGuard()         {}
